@@ -602,7 +602,14 @@ func (o *writeUDPOp) Do() {
 		o.err, o.s.pendErr = o.s.pendErr, nil
 		n.Fired["udp-write-econnrefused"]++
 		n.event("udp-write-refused", from.String(), o.dst.String(), 0, "")
-		n.FailedUDP = append(n.FailedUDP, &Emission{Seq: -1, Step: n.K.Step, At: n.K.Elapsed(), Proto: "udp", Src: from.String(), Dst: o.dst.String(), Data: o.data, G: o.g, Err: "econnrefused"})
+		n.failedUDP(from, o, "econnrefused")
+		return
+	}
+	if o.dst.Port == 0 {
+		o.err = &net.OpError{Op: "write", Net: "udp", Addr: o.dst, Err: syscall.EINVAL}
+		n.Fired["udp-write-port-0"]++
+		n.event("udp-write-error", from.String(), o.dst.String(), 0, "einval")
+		n.failedUDP(from, o, "einval")
 		return
 	}
 	if len(o.data) > 65507 {
@@ -610,14 +617,14 @@ func (o *writeUDPOp) Do() {
 		o.err = &net.OpError{Op: "write", Net: "udp", Addr: o.dst, Err: syscall.EMSGSIZE}
 		n.Fired["udp-write-emsgsize"]++
 		n.event("udp-write-error", from.String(), o.dst.String(), 0, "emsgsize")
-		n.FailedUDP = append(n.FailedUDP, &Emission{Seq: -1, Step: n.K.Step, At: n.K.Elapsed(), Proto: "udp", Src: from.String(), Dst: o.dst.String(), Data: o.data, G: o.g, Err: "emsgsize"})
+		n.failedUDP(from, o, "emsgsize")
 		return
 	}
 	if pct(n.K, n.F.UDPWriteErrPct) {
 		o.err = &net.OpError{Op: "write", Net: "udp", Addr: o.dst, Err: syscall.ENOBUFS}
 		n.Fired["udp-write-error"]++
 		n.event("udp-write-error", from.String(), o.dst.String(), 0, "enobufs")
-		n.FailedUDP = append(n.FailedUDP, &Emission{Seq: -1, Step: n.K.Step, At: n.K.Elapsed(), Proto: "udp", Src: from.String(), Dst: o.dst.String(), Data: o.data, G: o.g, Err: "enobufs"})
+		n.failedUDP(from, o, "enobufs")
 		return
 	}
 	e := &Emission{Seq: len(n.Emissions), Step: n.K.Step, At: n.K.Elapsed(), Proto: "udp",
@@ -633,6 +640,16 @@ func (o *writeUDPOp) Do() {
 	n.sendUDP(from, o.dst, o.data)
 }
 func (o *writeUDPOp) OpName() string { return "write-udp" }
+
+// failedUDP records a datagram write that returned an error. Nothing was sent, but what the program tried to send is
+// an emission all the same (its decision is observed; Err says that the operating system refused it): it is in
+// Emissions, marked, and in FailedUDP.
+func (n *Net) failedUDP(from *net.UDPAddr, o *writeUDPOp, why string) {
+	e := &Emission{Seq: len(n.Emissions), Step: n.K.Step, At: n.K.Elapsed(), Proto: "udp", Src: from.String(), Dst: o.dst.String(), Data: o.data, G: o.g, Err: why}
+	n.Emissions = append(n.Emissions, e)
+	n.FailedUDP = append(n.FailedUDP, e)
+	n.K.HashBytes(o.data)
+}
 
 //go:norace
 func (c *UDPConn) WriteToUDP(b []byte, addr *net.UDPAddr) (int, error) {
